@@ -65,13 +65,17 @@ Example C16_ex2 :
   [x61; CR; LF; DASH; SP; x62; CR; LF; x63].
 Proof. vm_compute. reflexivity. Qed.
 
-(* converting a line between LF and CR LF endings does not change what is signed, whatever the
-   line's content (blanks, CRs, dashes ...); stated per line -- the lift to whole texts through
-   split_inclusive is covered by the exhaustive correspondence run, not by a theorem *)
-Theorem C16_line_signed_form_lf_crlf_invariant_partial :
+(* converting a document between LF and CR LF line endings does not change what is signed, whatever
+   the lines contain (blanks, CRs, dashes ...): for every text *)
+Theorem C16_signed_form_lf_crlf_invariant : forall t, signed_form (canon t) = signed_form t.
+Proof. exact signed_form_crlf_invariant. Qed.
+Print Assumptions C16_signed_form_lf_crlf_invariant.
+
+(* the step it rests on, per line: LF and CR LF endings give the same signed form for every content *)
+Theorem C16_line_signed_form_lf_crlf_invariant :
   forall c, ends_in_cr c = false -> canon (ut_line (c ++ [LF])) = canon (ut_line (c ++ [CR; LF])).
 Proof. exact ut_line_lf_crlf. Qed.
-Print Assumptions C16_line_signed_form_lf_crlf_invariant_partial.
+Print Assumptions C16_line_signed_form_lf_crlf_invariant.
 
 (* the pinned tree copied the line ending as found: a content CR followed by blanks was merged
    with the LF behind it ("a" CR SP LF signed as "a" CR LF), and the conversion changed the signed form *)
